@@ -132,6 +132,7 @@ def variables(v: str) -> dict:
     from elementpath import datatypes as dt
     et = documents()['et']
     var = {'s': 'abc', 'n': 3, 'd': 1.5, 'b': True, 'node': et.getroot()}
+    var.update(G.magnitude_variables())
     if v != '1.0':
         var.update({'seq': [1, 2, 3], 'e': [], 'u': dt.UntypedAtomic('12'),
                     'dt': dt.DateTime10.fromstring('2001-02-03T04:05:06Z'),
@@ -946,6 +947,9 @@ def gen_explore_cases(rng, n: int, matrix: str = 'classes') -> list[dict]:
         for v in VERSIONS:
             cases.append({'v': v, 's': s, 'c': 'doc', 'g': 'corpus'})
     if matrix != 'none':
+        for v in (VERSIONS if matrix == 'pool' else ['1.0', '3.1']):
+            for s, tag in G.magnitude_cases(v):
+                cases.append({'v': v, 's': s, 'c': 'doc', 'g': tag})
         # quick: operators/functions are shared code between the versions -> the matrices are run with the
         # 1.0 parser (compatibility mode) and the 3.1 parser (everything); thorough: all four, full pool
         for v in (VERSIONS if matrix == 'pool' else ['1.0', '3.1']):
